@@ -229,6 +229,8 @@ def run(ctx):
         cases.append({"h": zero_history(rng, contents, tab), "tag": "empty-and-ignored"})
     for _ in range(30 if quick else 400):
         cases.append({"h": tie_history(rng, contents, tab), "tag": "extension-tie"})
+    for _ in range(20 if quick else 300):
+        cases.append({"h": touch_history(rng, contents, tab, groups), "tag": "touch-in-run-second"})
     for _ in range(16 if quick else 300):
         p0, a0, t0 = (rng.choice(FILE_STEMS), rng.choice([1, 2, 3])), rng.randint(1, len(contents)), T0 + rng.randrange(0, 1000)
         cases.append({"h": [("W", p0, a0, t0), ("X", rng.choice(CMDS), [], t0 + 2),
@@ -295,7 +297,7 @@ def run(ctx):
                        "replayed on sgcli in a Sandbox; every Run executed twice (with and without --no-sloc-cache): evaluations = CLI invocations. Languages-boundary histories edit one definition so that only a list boundary, an empty item, the marker order, the name or the extension split changes, on a file the two definitions classify differently. Rename-across-languages histories rename or copy (cp -p) a file that has a stored entry to an extension with other comment markers, the content being one the two languages count differently. Symlink histories name a link (own mtime old; target inside or outside the scanned tree) explicitly with check --files / stats <path>, edit, delete and re-create the target or re-point the link. Foreign-version histories replace cache.json by a well-formed file of every version 0..CACHE_VERSION+2 but the current one, same hash and metadata, other statistics, `ignored` absent or present. Directed histories put a same-size rewrite in the second of a "
                        "previous run, rename a same-(mtime,size) file over a cached path, or keep the rewrite one second apart; a truncation sweep cuts cache.json at every %d-th byte (size %d). "
                        "Compared: stdout+exit code of the pair (property oracle), per-file statistics / totals and cache.json entries against the extracted Coq model. "
-                       "Two-universe histories: nested sub-projects (own .sloc-guard.toml, 1-4 levels deep) run from inside their directory, the enclosing project run from its root with [structure] max_dirs / max_files / max_depth at the boundary, and git projects (state in .git/sloc-guard) whose scanner.exclude does not list .git/**; the whole history once with the cache on and once with --no-sloc-cache everywhere, in two project copies, compared invocation by invocation. "
+                       "Touch-in-run-second histories rewrite a cached file with identical bytes in second T, run in T (or T+1), edit it with the same size in that second and run again later. Two-universe histories also cover: a custom language that claims json (the tool's cache.json / history.json must not become source files of stats / snapshot; plain and git projects) and a cache that cannot be written back (cache.json replaced by a directory, a regular file named .sloc-guard) under --strict / --warnings-as-errors / [check] warnings_as_errors. Two-universe histories: nested sub-projects (own .sloc-guard.toml, 1-4 levels deep) run from inside their directory, the enclosing project run from its root with [structure] max_dirs / max_files / max_depth at the boundary, and git projects (state in .git/sloc-guard) whose scanner.exclude does not list .git/**; the whole history once with the cache on and once with --no-sloc-cache everywhere, in two project copies, compared invocation by invocation. "
                        "non-trivial = histories with at least one edit, rename, delete, configuration change or corruption between two runs" % (64 if quick else 8, csize))
     ctx.cov["input_distribution"] = dist
     ctx.cov["trusted_base"] = TRUSTED_COMMON + ["the counter's answers enter the model as the oracle `truth` (computed with sgv-counter)",
@@ -305,7 +307,7 @@ def run(ctx):
                        "the cache key identifies the file (the model takes paths as identities): justified for UTF-8 paths by the absolute-path key (D41; runs from the root and from sub-directories share the project cache in the generated histories; a backslash stays a name character outside Windows, D90), non-UTF-8 paths bypass the cache (D40; theorem C12_unkeyed_path_independent); both also exercised by the key scenarios of the run",
                        "a symbolic link named explicitly is, as fs::metadata / fs::read see it, another name for the target's content and mtime (model op Copy; the replay mirrors every change of the target on the link path)",
                        "an extension claimed by several custom definitions belongs to the one whose name sorts last (registry registers in name order, last wins): the replay hands the model the claims in descending name order (first match)",
-                       "directory and file COUNTS of the structure scan are not in the Coq model; the two-universe histories compare them on the implementation (state directories must not become project entries)"]
+                       "which directory entries a scan sees (structure counts, the file list of stats / snapshot) is not in the Coq model, nor is a cache file that cannot be written; the two-universe histories compare them on the implementation (state directories must not become project entries)"]
     xcheck(ctx, cases, mlines, 12 if quick else 60)
     # ---------------- verdicts
     reported = 0
@@ -316,7 +318,7 @@ def run(ctx):
         ctx.violation(dict(f, kind="property-oracle", what="cached invocation differs from its --no-sloc-cache twin or from the true counts (cache key scenario)",
                            replay_cmd="python3 tools/vp.py check C12 --replay <this file>"))
         reported += 1
-    ucases = universe_fixed() + [universe_case(rng) for _ in range(24 if quick else 300)]
+    ucases = universe_fixed() + [universe_case(rng) for _ in range(36 if quick else 400)]
     ufails, uruns = universe_failures(exe, ucases)
     ctx.cov["evaluations"] += 2 * uruns
     ctx.cov["two_universe_histories"] = {"histories": len(ucases), "invocation_pairs": uruns, "failed": len(ufails),
